@@ -71,10 +71,10 @@ fn c09_type_codes() {
 // =============================================================================================
 // C18 / C09 / C03 at message level: the real MessageDecoder::decode on a buffer with a fixed
 // slot layout and symbolic contents.
-//   layout (68 bytes): header | slot0 (8) | block (24) | slot1 (8) | slot2 (8)
-//   slot  = type in S = {FINGERPRINT 0x8028, PRIORITY 0x0024, unknown 0x7F02, unknown 0xFF03},
+//   layout (60 bytes): header | slot0 (8) | block (24) | slot1 (8)
+//   slot  = type in S = {FINGERPRINT 0x8028, PRIORITY 0x0024, unknown 0x7F02},
 //           length 4, 4 symbolic value bytes
-//   block = type in {MESSAGE-INTEGRITY 0x0008 (length 20), unknown 0x7F04 (length 20)}
+//   block = MESSAGE-INTEGRITY 0x0008 or unknown 0x7F04 (length 20), concrete per instance
 // The registry is the 4-kind restriction of the generated one (agreement on S asserted below).
 // =============================================================================================
 use crate::attributes::{AttributeType as AT, DecodeAttributeValue};
@@ -122,47 +122,52 @@ fn c18_registry_small_agrees() {
     }
 }
 
-const L: usize = 68;
-struct Wire {
+// two layouts (concrete per instance):
+//   LAYOUT 0 (36 bytes): header | slot (8) | slot (8)
+//   LAYOUT 1 (52 bytes): header | block (24) | slot (8)
+const NA: usize = 2;
+struct Wire<const L: usize> {
     buf: [u8; L],
-    types: [u16; 4], // wire order: slot0, block, slot1, slot2
+    types: [u16; NA],
+    offs: [usize; NA],
+    lens: [u8; NA],
 }
 fn slot_type() -> u16 {
     let k: u8 = kani::any();
-    kani::assume(k < 4);
+    kani::assume(k < 3);
     match k {
         0 => 0x8028,
         1 => 0x0024,
-        2 => 0x7f02,
-        _ => 0xff03,
+        _ => 0x7f02,
     }
 }
-fn any_wire() -> Wire {
+fn any_wire<const L: usize>(block_mi: bool) -> Wire<L> {
     let mut buf: [u8; L] = kani::any();
     put_header(&mut buf, (L - 20) as u16);
-    let block_t: u16 = if kani::any() { 0x0008 } else { 0x7f04 };
-    let types = [slot_type(), block_t, slot_type(), slot_type()];
-    let offs = [20usize, 28, 52, 60];
-    let lens = [4u8, 20, 4, 4];
+    let (types, offs, lens) = if L == 36 {
+        ([slot_type(), slot_type()], [20usize, 28], [4u8, 4])
+    } else {
+        ([if block_mi { 0x0008 } else { 0x7f04 }, slot_type()], [20usize, 44], [20u8, 4])
+    };
     let mut i = 0;
-    while i < 4 {
+    while i < NA {
         buf[offs[i]] = (types[i] >> 8) as u8;
         buf[offs[i] + 1] = types[i] as u8;
         buf[offs[i] + 2] = 0;
         buf[offs[i] + 3] = lens[i];
         i += 1;
     }
-    Wire { buf, types }
+    Wire { buf, types, offs, lens }
 }
 fn kind(t: u16) -> u8 {
     if t == T_MI { 1 } else if t == T_SHA { 2 } else if t == T_FP { 3 } else { 0 }
 }
-/// C09 rule on the four wire attributes: which are admitted
-fn admitted(types: &[u16; 4]) -> [bool; 4] {
+/// C09 rule on the wire attributes: which are admitted
+fn admitted(types: &[u16; NA]) -> [bool; NA] {
     let (mut mi, mut sha, mut fp) = (false, false, false);
-    let mut out = [false; 4];
+    let mut out = [false; NA];
     let mut i = 0;
-    while i < 4 {
+    while i < NA {
         let k = kind(types[i]);
         out[i] = match k {
             1 => !(mi || sha || fp),
@@ -181,6 +186,43 @@ fn admitted(types: &[u16; 4]) -> [bool; 4] {
     out
 }
 
+// The decoded attributes are observed through a recording stub of StunMessageBuilder::with_attribute
+// (type code, and for Unknown the raw data) instead of through the built message: moving the real
+// ~150-byte StunAttribute enum into the message's Vec is what made even the 36-byte decode need
+// 11 GB.  The decode loop, the filter, the handlers and validate_attribute are the real code.
+#[derive(Clone, Copy)]
+struct RecAttr {
+    code: u16,
+    has_data: bool,
+    dlen: usize,
+    d0: u8,
+    d3: u8,
+}
+static mut REC_ATTRS: [RecAttr; 4] = [RecAttr { code: 0, has_data: false, dlen: 0, d0: 0, d3: 0 }; 4];
+static mut REC_N: usize = 0;
+fn rec_with_attribute<T: Into<StunAttribute>>(b: StunMessageBuilder, attribute: T) -> StunMessageBuilder {
+    let a: StunAttribute = attribute.into();
+    let mut r = RecAttr { code: a.attribute_type().as_u16(), has_data: false, dlen: 0, d0: 0, d3: 0 };
+    if let StunAttribute::Unknown(u) = &a {
+        if let Some(d) = u.attribute_data() {
+            r.has_data = true;
+            r.dlen = d.len();
+            if d.len() >= 4 {
+                r.d0 = d[0];
+                r.d3 = d[3];
+            }
+        }
+    }
+    unsafe {
+        if REC_N < 4 {
+            REC_ATTRS[REC_N] = r;
+        }
+        REC_N += 1;
+    }
+    std::mem::forget(a);
+    b
+}
+
 /// OPT bits: 1 = context present, 2 = not_ignore, 4 = with_unknown_data
 fn mk_decoder<const OPT: u8>() -> MessageDecoder {
     if OPT & 1 == 0 {
@@ -196,38 +238,39 @@ fn mk_decoder<const OPT: u8>() -> MessageDecoder {
     MessageDecoderBuilder::default().with_context(b.build()).build()
 }
 
-fn c18_decode_opt<const OPT: u8>() {
-    let w = any_wire();
+fn c18_decode_opt<const OPT: u8, const BLOCK_MI: bool, const L: usize>() {
+    let w = any_wire::<L>(BLOCK_MI);
     let dec = mk_decoder::<OPT>();
+    unsafe {
+        REC_N = 0;
+    }
     let r = dec.decode(&w.buf);
-    let adm = if OPT & 2 != 0 { [true; 4] } else { admitted(&w.types) };
+    let adm = if OPT & 2 != 0 { [true; NA] } else { admitted(&w.types) };
     match &r {
-        Ok((m, size)) => {
+        Ok((_m, size)) => {
             assert!(*size == L, "C03: size = 20 + length field");
             let mut want = 0usize;
             let mut i = 0;
-            while i < 4 {
+            while i < NA {
                 if adm[i] {
                     want += 1;
                 }
                 i += 1;
             }
-            assert!(m.attributes().len() == want, "C09/C18: exactly the admitted wire attributes are returned (all of them with not_ignore; same without a context as with the default context)");
-            // order and kinds: the j-th returned attribute is the j-th admitted wire attribute
+            assert!(unsafe { REC_N } == want, "C09/C18: exactly the admitted wire attributes are returned (all of them with not_ignore; same without a context as with the default context)");
             let mut j = 0usize;
             let mut i = 0;
-            while i < 4 {
+            while i < NA {
                 if adm[i] {
-                    let a = &m.attributes()[j];
-                    assert!(a.attribute_type().as_u16() == w.types[i], "C09/C18: wire order preserved");
-                    if let StunAttribute::Unknown(u) = a {
-                        let off = [24usize, 32, 56, 64][i];
-                        match u.attribute_data() {
-                            Some(d) => {
-                                assert!(OPT & 4 != 0, "C18: raw data only when asked for");
-                                assert!(d.len() == if i == 1 { 20 } else { 4 } && d[0] == w.buf[off] && d[3] == w.buf[off + 3], "C18: exactly the raw value bytes");
-                            }
-                            None => assert!(OPT & 4 == 0, "C18: with_unknown_data keeps the raw value bytes"),
+                    let a = unsafe { REC_ATTRS[j] };
+                    assert!(a.code == w.types[i], "C09/C18: wire order preserved");
+                    if kind(w.types[i]) == 0 && w.types[i] != 0x0024 {
+                        // an unknown attribute
+                        let off = w.offs[i] + 4;
+                        if OPT & 4 != 0 {
+                            assert!(a.has_data && a.dlen == w.lens[i] as usize && a.d0 == w.buf[off] && a.d3 == w.buf[off + 3], "C18: with_unknown_data keeps exactly the raw value bytes");
+                        } else {
+                            assert!(!a.has_data, "C18: raw data only when asked for");
                         }
                     }
                     j += 1;
@@ -237,26 +280,30 @@ fn c18_decode_opt<const OPT: u8>() {
         }
         Err(_) => assert!(false, "C03/C18: a well-formed message decodes under every option set (no validation requested)"),
     }
-    kani::cover!(adm[3] && !adm[2]);
     kani::cover!(!adm[1]);
+    kani::cover!(adm[1]);
     std::mem::forget(r);
     std::mem::forget(dec);
 }
 
 macro_rules! c18_inst {
-    ($($name:ident = $o:expr;)*) => {$(
+    ($($name:ident = ($o:expr, $b:expr, $l:expr);)*) => {$(
         #[kani::proof]
-        #[kani::unwind(14)]
+        #[kani::unwind(8)]
         #[kani::stub(alloc::fmt::format, nofmt)]
         #[kani::stub(<crate::types::TransactionId as std::default::Default>::default, tid_any)]
         #[kani::stub(crate::registry::get_handler, registry_small)]
-        fn $name() { c18_decode_opt::<$o>(); }
+        #[kani::stub(crate::message::StunMessageBuilder::with_attribute, rec_with_attribute)]
+        fn $name() { c18_decode_opt::<$o, $b, $l>(); }
     )*};
 }
 c18_inst! {
-    c18_decode_noctx = 0;
-    c18_decode_default_ctx = 1;
-    c18_decode_not_ignore = 3;
-    c18_decode_unknown_data = 5;
-    c18_decode_not_ignore_unknown_data = 7;
+    c18_decode_noctx = (0, true, 36);
+    c18_decode_default_ctx = (1, true, 36);
+    c18_decode_not_ignore = (3, true, 36);
+    c18_decode_unknown_data = (5, true, 36);
+    c18_decode_noctx_mi = (0, true, 52);
+    c18_decode_default_ctx_mi = (1, true, 52);
+    c18_decode_not_ignore_mi = (3, true, 52);
+    c18_decode_unknown_block_data = (5, false, 52);
 }
